@@ -66,7 +66,7 @@ let parse_op = function
   | [ "R" ] -> OBlockReserved
   | _ -> failwith "bad op"
 
-let () =
+let lockstep () =
   Conv.iter_lines (fun line ->
       let parts = split_semis (Conv.tokens line) in
       let buf = Buffer.create 256 in
@@ -111,3 +111,219 @@ let () =
                go g0 [] ops
            | _ -> Buffer.add_string buf "PANIC"));
       print_endline (Buffer.contents buf))
+
+(* ------------------------------------------------------------------ DHCP trace validation
+   usage: ipgen dhcp   reads `case ||| impl line` (see harness/src/bin/c15_dhcp.rs), prints ACCEPT | REJECT why.
+   The observed events are turned into a label sequence of Model/DhcpProto.v:
+     D (delivery to a tap) of a message that changes state without a reply  -> Deliver at once
+     D of a Discover / Request / Offer                                      -> pending; its Deliver is placed where
+                                                                               the reply it causes is handed to the network
+     S (hand-over to the network) must be a message the model has created and not yet seen on the wire;
+       fate 2 -> Dup, fate x -> Drop
+   The server's processing order of concurrently delivered Discovers is not observable on a multi-thread runtime,
+   so for an Offer the pending Discovers of other clients may be delivered first (backtracking search).
+   At the end every pending message is delivered; then: nothing the model sent may be missing on the wire, the
+   clients' ip_address fields and the server's generator must equal the model's, and `run (init n g0) labels`
+   must give exactly that state (the hypothesis of C15_dhcp_distinct).  A crash at dhcp_server.rs:60 is accepted
+   iff the model panics with site 60. *)
+let rec nat_of_int n = if n <= 0 then O else S (nat_of_int (n - 1))
+let rec int_of_nat = function O -> 0 | S n -> 1 + int_of_nat n
+
+type key = bool * int * int * int (* up, client, type number, your_ip *)
+
+let mtype_no = function Discover -> 1 | Offer -> 2 | Request -> 3 | Decline -> 4 | Ack -> 5 | Nack -> 6 | Release -> 7
+let key_of (m : msg) : key = (m.m_up, int_of_nat m.m_cid, mtype_no m.m_type, int_of_z m.m_ip)
+let show_key ((up, c, t, ip) : key) = Printf.sprintf "%s c%d type%d ip%d" (if up then "up" else "down") c t ip
+
+let rec remove_one x = function [] -> [] | y :: t -> if y = x then t else y :: remove_one x t
+let count x l = List.length (List.filter (fun y -> y = x) l)
+
+let index_of (k : key) (st : state) : int option =
+  let rec go i = function [] -> None | m :: t -> if key_of m = k then Some i else go (i + 1) t in
+  go 0 st.net0
+
+type vst = { st : state; unsent : key list; pending : key list; labels : label list (* reversed *) }
+
+exception Reject of string
+
+type stepres = Stepped of vst * key list | Crashed of int
+
+(* apply a label that must be enabled *)
+let apply (v : vst) (l : label) : stepres =
+  let before = List.length v.st.net0 in
+  match step v.st l with
+  | Ok st' ->
+      let removed = match l with Deliver _ -> 1 | _ -> 0 in
+      let keep = before - removed in
+      let rec drop n l = if n <= 0 then l else match l with [] -> [] | _ :: t -> drop (n - 1) t in
+      let outs = match l with Deliver _ -> List.map key_of (drop keep st'.net0) | _ -> [] in
+      Stepped ({ v with st = st'; labels = l :: v.labels }, outs)
+  | Panic site -> Crashed (int_of_z site)
+  | _ -> raise (Reject "model step failed")
+
+let deliver (v : vst) (k : key) : stepres =
+  match index_of k v.st with
+  | None -> raise (Reject ("the model has no in-flight message " ^ show_key k))
+  | Some i -> (
+      match apply v (Deliver (nat_of_int i)) with
+      | Stepped (v', outs) -> Stepped ({ v' with unsent = v'.unsent @ outs }, outs)
+      | c -> c)
+
+let deferred ((up, _, t, _) : key) = (up && (t = 1 || t = 3)) || ((not up) && t = 2)
+
+let cause_of ((up, c, t, ip) : key) : key option =
+  match (up, t) with
+  | false, 2 -> Some (true, c, 1, 0)
+  | false, 5 -> Some (true, c, 3, ip)
+  | true, 3 -> Some (false, c, 2, ip)
+  | _ -> None
+
+type ev = ES of key * string | ED of key | EX of int * int option | EG of string | EEnd of string | EOther
+
+let validate_dhcp (line : string) : string =
+  let case, impl =
+    match Str.bounded_split (Str.regexp_string " ||| ") line 2 with
+    | [ a; b ] -> (a, b)
+    | _ -> failwith "validate line"
+  in
+  let ct = Array.of_list (Conv.tokens case) in
+  let n = int_of_string ct.(3) in
+  let ctor =
+    match ct.(5) with
+    | "range" -> KNew (zi ct.(6), zi ct.(7))
+    | "sub" -> KSub (zi ct.(6), zi ct.(7))
+    | "noends" -> KNoEnds (zi ct.(6), zi ct.(7))
+    | _ -> failwith "pool"
+  in
+  let g0 = match build ctor with Ok g -> g | _ -> failwith "pool constructor panics" in
+  let parts = Str.split (Str.regexp_string " ; ") impl in
+  let evs =
+    List.map
+      (fun p ->
+        match Conv.tokens p with
+        | [ "S"; d; c; t; ip; f ] -> ES ((d = "u", int_of_string c, int_of_string t, int_of_string ip), f)
+        | [ "D"; d; c; t; ip ] -> ED (d = "u", int_of_string c, int_of_string t, int_of_string ip)
+        | [ "X"; c; v ] -> EX (int_of_string c, if v = "-" then None else Some (int_of_string v))
+        | "G" :: r -> EG (String.concat " " r)
+        | "E" :: r -> EEnd (String.concat " " r)
+        | "G0" :: r ->
+            if String.concat " " r <> show_state g0 then raise (Reject ("initial pool: implementation " ^ String.concat " " r ^ " model " ^ show_state g0));
+            EOther
+        | _ -> EOther)
+      parts
+  in
+  let finals = ref [] and gfinal = ref None in
+  (* returns unit on ACCEPT, raises Reject otherwise; alternatives are tried at the Offer choice point *)
+  let rec go (v : vst) (evs : ev list) : unit =
+    match evs with
+    | [] -> raise (Reject "trace without an end")
+    | EOther :: t -> go v t
+    | EX (c, x) :: t -> finals := (c, x) :: !finals; go v t
+    | EG s :: t -> gfinal := Some s; go v t
+    | ED k :: t ->
+        let inflight = count k (List.map key_of v.st.net0) - count k v.unsent - count k v.pending in
+        if inflight < 1 then raise (Reject ("delivered but not in flight in the model: " ^ show_key k));
+        if deferred k then go { v with pending = v.pending @ [ k ] } t
+        else (
+          match deliver v k with
+          | Stepped (v', _) -> go v' t
+          | Crashed s -> raise (Reject (Printf.sprintf "model panics (site %d) on %s" s (show_key k))))
+    | ES (k, f) :: t ->
+        let after_sent (v : vst) =
+          let v = { v with unsent = remove_one k v.unsent } in
+          let v =
+            match f with
+            | "2" | "x" -> (
+                match index_of k v.st with
+                | None -> raise (Reject "sent message not in the model's network")
+                | Some i -> (
+                    let l = if f = "2" then Dup (nat_of_int i) else Drop (nat_of_int i) in
+                    match apply v l with Stepped (v', _) -> v' | Crashed _ -> raise (Reject "dup/drop panics")))
+            | _ -> v
+          in
+          go v t
+        in
+        if List.mem k v.unsent then after_sent v
+        else (
+          match cause_of k with
+          | None -> raise (Reject ("the implementation sent what the model never creates: " ^ show_key k))
+          | Some cz ->
+              if not (List.mem cz v.pending) then
+                raise (Reject ("the implementation sent " ^ show_key k ^ " without having received " ^ show_key cz));
+              let step_pending (v : vst) (p : key) : vst =
+                match deliver { v with pending = remove_one p v.pending } p with
+                | Stepped (v', _) -> v'
+                | Crashed s -> raise (Reject (Printf.sprintf "model panics (site %d) where the implementation answered %s" s (show_key k)))
+              in
+              let _, _, ty, _ = k in
+              if ty <> 2 then (
+                let v' = step_pending v cz in
+                if not (List.mem k v'.unsent) then raise (Reject ("the model answers differently from " ^ show_key k));
+                after_sent v')
+              else
+                (* Offer: which Discovers did the server process before this one? *)
+                let rec search (v : vst) (depth : int) : unit =
+                  let v1 = step_pending v cz in
+                  if List.mem k v1.unsent then after_sent v1
+                  else if depth = 0 then raise (Reject ("no processing order of the delivered Discovers explains " ^ show_key k))
+                  else
+                    let others = List.sort_uniq compare (List.filter (fun ((up, c', t', _) as p) -> up && t' = 1 && p <> cz) v.pending) in
+                    let rec try_each last = function
+                      | [] -> raise (Reject last)
+                      | o :: rest -> ( try search (step_pending v o) (depth - 1) with Reject m -> try_each m rest)
+                    in
+                    try_each ("no processing order of the delivered Discovers explains " ^ show_key k) others
+                in
+                search v (List.length v.pending))
+    | EEnd e :: _ ->
+        (* deliver what is still pending, in arrival order *)
+        let rec drain (v : vst) : vst * int option =
+          match v.pending with
+          | [] -> (v, None)
+          | p :: _ -> (
+              match deliver { v with pending = remove_one p v.pending } p with
+              | Stepped (v', _) -> drain v'
+              | Crashed s -> (v, Some s))
+        in
+        let v, crashed = drain v in
+        let impl_crash = String.length e >= 5 && String.sub e 0 5 = "CRASH" in
+        if impl_crash then (
+          if e <> "CRASH dhcp_server.rs:60" then raise (Reject ("implementation ended with " ^ e));
+          match crashed with
+          | Some 60 -> ()
+          | _ -> raise (Reject "the implementation crashed at dhcp_server.rs:60 but the model does not panic"))
+        else (
+          (match crashed with Some s -> raise (Reject (Printf.sprintf "the model panics (site %d) but the implementation went on" s)) | None -> ());
+          if e <> "DONE" then raise (Reject ("run ended with " ^ e));
+          if v.unsent <> [] then raise (Reject ("the model sends " ^ show_key (List.hd v.unsent) ^ " but the implementation never did"));
+          List.iter
+            (fun (c, x) ->
+              let m = match List.nth_opt v.st.clients c with Some (Some a) -> Some (int_of_z a) | _ -> None in
+              if m <> x then
+                raise (Reject (Printf.sprintf "client %d ends with %s, model %s" c
+                     (match x with Some a -> string_of_int a | None -> "-") (match m with Some a -> string_of_int a | None -> "-"))))
+            !finals;
+          if List.length !finals <> n then raise (Reject "final fields missing");
+          (match !gfinal with
+           | Some s when s = show_state v.st.srv -> ()
+           | Some s -> raise (Reject ("server generator ends as " ^ s ^ ", model " ^ show_state v.st.srv))
+           | None -> raise (Reject "final generator missing"));
+          (* the label sequence is a run of the model from init: the hypothesis of the theorems *)
+          match run (init (nat_of_int n) g0) (List.rev v.labels) with
+          | Ok st when st = v.st -> ()
+          | _ -> raise (Reject "internal: label sequence does not replay"))
+  in
+  let v0 =
+    { st = init (nat_of_int n) g0; unsent = List.init n (fun c -> (true, c, 1, 0)); pending = []; labels = [] }
+  in
+  try
+    go v0 evs;
+    "ACCEPT"
+  with
+  | Reject m -> "REJECT " ^ m
+  | Failure m -> "REJECT driver: " ^ m
+
+let () =
+  if Array.length Sys.argv > 1 && Sys.argv.(1) = "dhcp" then
+    Conv.iter_lines (fun line -> print_endline (try validate_dhcp line with Reject m -> "REJECT " ^ m | Failure m -> "REJECT driver: " ^ m))
+  else lockstep ()
